@@ -299,6 +299,7 @@ pub fn multi_table_session(rep: &mut Report, seed: u64, case: u64, directed: Opt
         Create(String, Vec<ColDef>),
         Drop(String),
         Reopen,
+        Codepage(i32),
     }
     let k16 = |n: &str| ColDef::new(n, CT::Int16).key();
     let mut rng = Rng::derive(seed, 66, case);
@@ -326,6 +327,16 @@ pub fn multi_table_session(rep: &mut Report, seed: u64, case: u64, directed: Opt
             St::Reopen,
             St::Create("Alpha".into(), vec![k16("Text")]),
             St::Drop("Text".into()),
+            St::Reopen,
+        ],
+        Some(3) => vec![
+            // enumeration values outside ASCII under a single-byte database code page that can represent them
+            St::Codepage(1252),
+            St::Create("Accent".into(), vec![k16("K"), ColDef::new("Mode", CT::Str(0)).enums(&["é", "ü", "plain"]).nullable(), ColDef::new("Other", CT::Str(8)).enums(&["x", "yé"])]),
+            St::Reopen,
+            St::Create("After".into(), vec![k16("K"), ColDef::new("Mode", CT::Str(0)).enums(&["été", "z"]).nullable()]),
+            St::Reopen,
+            St::Codepage(65001),
             St::Reopen,
         ],
         _ => {
@@ -375,6 +386,7 @@ pub fn multi_table_session(rep: &mut Report, seed: u64, case: u64, directed: Opt
             St::Create(n, c) => format!("create {} {}", n, shape(c)),
             St::Drop(n) => format!("drop {}", n),
             St::Reopen => "reopen".into(),
+            St::Codepage(p) => format!("set_database_codepage({})", p),
         })
         .collect();
     let witness = json!({"kind": "multi", "seed": seed, "case": case, "directed": directed, "steps": log});
@@ -404,6 +416,11 @@ pub fn multi_table_session(rep: &mut Report, seed: u64, case: u64, directed: Opt
                         want.remove(name);
                     }
                 },
+                St::Codepage(id) => {
+                    if let Some(cp) = crate::cpora::msi_page(*id) {
+                        pkg.as_mut().unwrap().set_database_codepage(cp);
+                    }
+                }
                 St::Reopen => {
                     let p = pkg.take().unwrap();
                     match guarded(move || p.into_inner().map(|_| ())) {
@@ -500,7 +517,7 @@ pub fn run(ctx: &Ctx) -> Report {
                 }
             }
         }
-        for d in 0..3usize {
+        for d in 0..4usize {
             if d % n == shard {
                 multi_table_session(&mut rep, seed, d as u64, Some(d));
             }
